@@ -15,9 +15,6 @@ verus! {
 //@start{
     let ghost d0 = dst@;
 //@}
-//@after 1 self.output_pos.serialize_to_vec(dst);{
-    proof { assert(dst@ =~= d0 + self.ser_spec()); }
-//@}
 //@fn deserialize_from_slice
 //@ret r
 //@start{
@@ -52,9 +49,6 @@ spec fn cm_r1(m: CodeMapper, t: Seq<u8>) -> Seq<u8> { m.alphabet_size.ser_spec()
 //@fn serialize_to_vec
 //@start{
     let ghost d0 = dst@;
-//@}
-//@after 1 self.alphabet_size.serialize_to_vec(dst);{
-    proof { assert(dst@ =~= d0 + self.vser_spec()); }
 //@}
 //@fn deserialize_from_slice
 //@ret r
